@@ -122,12 +122,12 @@ def extract(universe="default", root=None, crate_name="lsm_tree", body_floor=BOD
             os.replace(produced, cached)
             fresh = True
             # keep the cache small: drop older fact files of this universe
-            for old in glob.glob(os.path.join(fdir, "*.json")):
-                if old != cached:
-                    try:
-                        os.remove(old)
-                    except OSError:
-                        pass
+            olds = sorted((o for o in glob.glob(os.path.join(fdir, "*.json")) if o != cached), key=os.path.getmtime)
+            for old in olds[:-3]:
+                try:
+                    os.remove(old)
+                except OSError:
+                    pass
         fcntl.flock(lk, fcntl.LOCK_UN)
     with open(cached) as f:
         facts = json.load(f)
